@@ -821,9 +821,29 @@ class SBuf(object):
             nat = bytearray(nat)
         return getattr(nat, name)
 
-    def _lt(self, o, strict_len):
-        raise Unsupported('ordering of symbolic buffers')
-    __lt__ = __gt__ = __le__ = __ge__ = lambda self, o: self._lt(o, 0)
+    def _lex(self, o, strict):
+        """self < o (strict) or self <= o, byte-wise lexicographic, a proper prefix is smaller."""
+        if not isinstance(o, (bytes, bytearray, SBuf)):
+            return NotImplemented
+        a, b = self.cells(), (o.cells() if isinstance(o, SBuf) else list(bytes(o)))
+        res = (len(a) < len(b)) if strict else (len(a) <= len(b))
+        for x, y in reversed(list(zip(a, b))):
+            res = If(x < y, True, If(x > y, False, res))
+        return res
+
+    def __lt__(self, o):
+        return self._lex(o, True)
+
+    def __le__(self, o):
+        return self._lex(o, False)
+
+    def __gt__(self, o):
+        r = self._lex(o, False)
+        return r if r is NotImplemented else Not(r)
+
+    def __ge__(self, o):
+        r = self._lex(o, True)
+        return r if r is NotImplemented else Not(r)
 
 
 class SStream(object):
